@@ -196,7 +196,7 @@ def fields_model(name, case):
         h = to_model("header", dict(f["header"], merkle="00" * 32))
         h["merkle"] = refser.merkle_root(ids)
         return {"header": h, "total_transactions": n, "hashes": hashes, "flags": list(flags)}, \
-               {"tx_hashes": [ids[i] for i in range(n) if matches[i]]}
+               {"tx_hashes": [ids[i] for i in range(n) if matches[i]], "flag_bits": refser.partial_merkle_tree_bits(n, matches)}
     if name == "alert":
         body = dict(f["body"])
         for k in ("comment", "statusBar", "reserved"):
@@ -347,6 +347,8 @@ def labels_for(name, case, model, extra):
         out.add("mb:n=%s" % (n if n <= 2 else "3-8" if n <= 8 else "9+"))
         k = bin(case["fields"]["match_mask"] & ((1 << n) - 1)).count("1")
         out.add("mb:matched=%s" % ("none" if k == 0 else "all" if k == n else "some"))
+        out.add("mb:flag-bits%%8=%d" % (extra["flag_bits"] % 8))
+        out.add("mb:flag-bytes=%s" % (len(model["flags"]) if len(model["flags"]) < 3 else "3+"))
     return sorted(out)
 
 
@@ -433,9 +435,20 @@ def s_merkleblock():
 
     def mk(n, seed, mode, mask, hdr):
         full = (1 << n) - 1
+        if mode.startswith("pad"):
+            # a chosen number of padding bits in the last flag byte; pad0 = the flag bits fill whole bytes exactly, which
+            # only unbalanced trees can do.  A (tree size, match set) of that shape is searched for deterministically.
+            target = (8 - int(mode[3:])) % 8
+            n = (7, 9, 11, 12, 14, 15, 18, 19, 30, 50, 70)[n % 11]      # tree sizes that admit every residue
+            full = (1 << n) - 1
+            for j in range(600):
+                m = (mask * (2 * j + 1) + j * 0x9e3779b97f4a7c15) & full
+                if refser.partial_merkle_tree_bits(n, [bool(m >> i & 1) for i in range(n)]) % 8 == target:
+                    return {"n": n, "seed": seed, "match_mask": m, "header": hdr}
+            mode = "some"
         mask = {"none": 0, "all": full, "one": 1 << (mask % n), "some": mask & full}[mode]
         return {"n": n, "seed": seed, "match_mask": mask, "header": hdr}
-    return st.builds(mk, n, st.integers(0, 10**6), st.sampled_from(["none", "all", "one", "some", "some", "some"]),
+    return st.builds(mk, n, st.integers(0, 10**6), st.sampled_from(["none", "all", "one", "some", "some", "some", "pad0", "pad0", "pad1", "pad2", "pad3", "pad4", "pad5", "pad6", "pad7"]),
                      st.integers(0, (1 << 300) - 1), header_fields())
 
 
